@@ -22,7 +22,7 @@ PLATFORMS = {
     "win-932": dict(encoding="cp932", linesep="\r\n"),
 }
 BUFSIZES = [1, 2, 3, 7, 16, 61, 4096, 8192]
-SIMPLE_KNOBS = dict(tuning_const=None, pipe_t0_zero=True, sm_lcm_cap=None, bms_odd_tempo_subdiv=None, platform="posix", path_type="str", stored_newline="lf", dest_state="absent", text_chunk=8192, faults="off")
+SIMPLE_KNOBS = dict(scale=1, tuning_const=None, pipe_t0_zero=True, sm_lcm_cap=None, bms_odd_tempo_subdiv=None, platform="posix", path_type="str", stored_newline="lf", dest_state="absent", text_chunk=8192, faults="off")
 MAX_SHORT_CALLS = 200
 
 FILE_PROPS = {"C01", "C02", "C03", "C04", "C05", "C06", "C07", "C08", "C09", "C13", "C14", "C15"}
@@ -30,8 +30,11 @@ FILE_PROPS = {"C01", "C02", "C03", "C04", "C05", "C06", "C07", "C08", "C09", "C1
 
 def draw_knobs(r: random.Random, prop: str, tier: str) -> dict:
     """Per-session (swarm style) environment knobs."""
+    # scale: most sessions are small (bugs need few rows); a few are 5-30 times larger so that nothing depends on a
+    # size threshold (a fast path, batching or a shortcut that only triggers beyond N rows / measures / tempo points)
+    scale = 1 if r.random() < 0.94 else r.choice([5, 12, 30])
     if prop not in FILE_PROPS:
-        return {}
+        return dict(scale=scale)
     x = r.random()
     faults = "off" if x < 0.2 else ("legal" if x < 0.7 else "errors")
     return dict(
@@ -46,6 +49,7 @@ def draw_knobs(r: random.Random, prop: str, tier: str) -> dict:
         bms_odd_tempo_subdiv=r.random() < 0.05,
         pipe_t0_zero=r.random() < 0.5,
         tuning_const=r.choice([None, 1, 2, 3, 5, 7, 16, 61]),
+        scale=scale,
     )
 
 
